@@ -72,6 +72,23 @@ fn handler_probe() {
                 ts.extend([0x12, 0x0B, 0x09, 0,0,0,0,0,0,0xF0,0x3F, 0x10, 0x05]);
                 let mut b = vec![0x0A, ts.len() as u8]; b.extend(ts); b }),
         ];
+        {
+            use arrow_array::{RecordBatch, StringArray, TimestampNanosecondArray, Float64Array};
+            use arrow_schema::{Schema, Field, DataType, TimeUnit};
+            use std::sync::Arc;
+            let schema = Arc::new(Schema::new(vec![
+                Field::new("timestamp", DataType::Timestamp(TimeUnit::Nanosecond, Some("UTC".into())), false),
+                Field::new("metric_name", DataType::Utf8, false),
+                Field::new("value_f64", DataType::Float64, true)]));
+            let b = RecordBatch::try_new(schema, vec![
+                Arc::new(TimestampNanosecondArray::from(Vec::<i64>::new()).with_timezone("UTC")),
+                Arc::new(StringArray::from(Vec::<String>::new())),
+                Arc::new(Float64Array::from(Vec::<f64>::new()))]).unwrap();
+            let fd = cardinalsin::api::ingest::flight_ingest::batch_to_flight_data(&b).unwrap();
+            let svc = Arc::new(cardinalsin::api::ingest::flight_ingest::FlightIngestService::new(ing.clone()));
+            let h = tokio::spawn(async move { svc.process_stream(fd.into_iter()).await.map_err(|e| e.to_string()) });
+            println!("flight zero-row batch: {:?}", h.await.map_err(|e| e.to_string()));
+        }
         for (name, raw) in bodies {
             let body = snap::raw::Encoder::new().compress_vec(&raw).unwrap();
             let st = state.clone();
